@@ -289,6 +289,19 @@ def templates(tier="quick"):
     v = Variant("v0", [Stmt("a\tb", ex=["s"]), Stmt("a", ex=["t"]), Stmt("top", ex=["a\tb", "a"])])
     T += _mk("tab_in_output_name", [v], tags=["names"], depth=d, js=(1, 2), max_fault_stmts=1)
 
+    # T33 an implicit output that only a dyndep file declares, in a project with a long build history: the automatic
+    # recompaction of the log runs before any dyndep file is loaded
+    from family_cycles import dyndep_text as _ddt
+    v = Variant("v0", [Stmt("dd", ex=["dd.in"], copy=True), Stmt("out", ex=["in"], oo=["dd"], dyndep="dd", extra_outs=["out.x"]),
+                       Stmt("use", ex=["in2"], oo=["dd", "out"], dyndep="dd", extra_reads=["out.x"]), Stmt("top", ex=["use"])])
+    hops = [{"op": "edit", "path": "in", "label": "edit in"}, {"op": "edit", "path": "in2", "label": "edit in2"},
+            {"op": "duplog", "path": "top", "content": "400", "label": "400 more records of top in the log (long history)"}]
+    hb = len(hops)
+    hops += [ninja_op(j=1), ninja_op(j=2)]
+    hfiles = {"dd.in": _ddt([("out", ["out.x"], [], False), ("use", [], ["out.x"], False)])}
+    T.append(scenario("dyndep_output_long_history/built", "template", [v], files=hfiles, ops=hops, init=[hb], depth=d,
+                      tags=["dyndep", "recompaction", "built"]))
+
     # T32 declared sources that are missing and have no rule: as explicit, implicit, order-only input and as a validation,
     # of statements with and without work to do (C05: reported before any command runs)
     v = Variant("v0", [Stmt("a", ex=["s"]), Stmt("b", ex=["a"], im=["isrc"]), Stmt("c", ex=["t"], oo=["osrc"]),
